@@ -1056,6 +1056,10 @@ func (c *Ctx) counterOver(v, x ssa.Value, lits []core.Lit) bool {
 		if c.isLenOf(bound, x) {
 			return true
 		}
+		// x and y are two results of one private step that makes both with one length on every return
+		if bl, ok := bound.(*ssa.Call); ok && core.CalleeName(bl.Common()) == "builtin.len" && c.siblingResultsSameLen(x, bl.Common().Args[0]) {
+			return true
+		}
 		// x = make([]T, len(y)) and the counter is bounded by len(y)
 		if mk, ok := c.res(x).(*ssa.MakeSlice); ok {
 			if bl, ok := bound.(*ssa.Call); ok && core.CalleeName(bl.Common()) == "builtin.len" {
@@ -1066,6 +1070,55 @@ func (c *Ctx) counterOver(v, x ssa.Value, lits []core.Lit) bool {
 		}
 	}
 	return false
+}
+
+// siblingResultsSameLen: x and y are two results of the same call of a private step, and on every return of that step
+// both are nil or both were made with the same length value (and returned as made).
+func (c *Ctx) siblingResultsSameLen(x, y ssa.Value) bool {
+	pick := func(v ssa.Value) *ssa.Extract {
+		if e, ok := v.(*ssa.Extract); ok {
+			return e
+		}
+		e, _ := c.res(v).(*ssa.Extract)
+		return e
+	}
+	ex, ey := pick(x), pick(y)
+	if ex == nil || ey == nil || ex.Tuple != ey.Tuple || ex.Index == ey.Index {
+		return false
+	}
+	call, ok := ex.Tuple.(*ssa.Call)
+	if !ok {
+		return false
+	}
+	callee := call.Common().StaticCallee()
+	if callee == nil || len(callee.Blocks) == 0 || !c.P.PrivateHelper(callee) {
+		return false
+	}
+	n, good := 0, true
+	core.Instrs(callee, func(in ssa.Instruction) {
+		r, isR := in.(*ssa.Return)
+		if !isR {
+			return
+		}
+		n++
+		if ex.Index >= len(r.Results) || ey.Index >= len(r.Results) {
+			good = false
+			return
+		}
+		a, b := r.Results[ex.Index], r.Results[ey.Index]
+		ca, isCA := a.(*ssa.Const)
+		cb, isCB := b.(*ssa.Const)
+		if isCA && isCB && ca.IsNil() && cb.IsNil() {
+			return
+		}
+		ma, isMA := a.(*ssa.MakeSlice)
+		mb, isMB := b.(*ssa.MakeSlice)
+		if isMA && isMB && (ma.Len == mb.Len || core.Path(ma.Len) == core.Path(mb.Len)) {
+			return
+		}
+		good = false
+	})
+	return good && n > 0
 }
 
 // intGuardPositive: literal l states v > 0.
